@@ -12,10 +12,11 @@ import gen_legacy as g
 import legacy_common as lc
 import simlib
 import simprops
+import gen_hostcb
 
 ID = "C13"
-IMPORTS = ["CaresProps.C13", "CaresProps.C13b"]
-LEAN_TARGETS = ["CaresProps.C13", "CaresProps.C13b", "driver_legacy", "driver_text"]
+IMPORTS = ["CaresProps.C13", "CaresProps.C13b", "CaresProps.C13c"]
+LEAN_TARGETS = ["CaresProps.C13", "CaresProps.C13b", "CaresProps.C13c", "driver_legacy", "driver_text"]
 THEOREMS = [
     "Cares.C13.addrs_exact",
     "Cares.C13.addrs_multiset",
@@ -36,7 +37,8 @@ THEOREMS = [
     "Cares.C13.ptr_name_injective",
     "Cares.C13.reverse_returns_ptr_targets",
 ]
-THEOREMS = THEOREMS + vlib.discover_theorems("CaresProps/C13b.lean")
+THEOREMS = THEOREMS + vlib.discover_theorems("CaresProps/C13b.lean") + vlib.discover_theorems("CaresProps/C13c.lean")
+GENERATORS = [gen_hostcb.gen_hostcb]
 TRUSTED = [
     "Lean 4.33.0 kernel; axioms allowed: propext, Classical.choice, Quot.sound",
     "hand-written Lean models (CaresModel/AddrInfo.lean) of ares_parse_into_addrinfo.c, ares_addrinfo2hostent.c, "
@@ -474,7 +476,11 @@ STREAMS = [
     simlib.lookups_stream(simprops.mon_lookups, quick_n=300, thorough_n=8000),
 ]
 
-LEVEL_TEXT = ("Proof. End-to-end part at the model level (C13b/C12c): for the channel model's getaddrinfo client the addresses "
+LEVEL_TEXT = ("Proof. The completion decision of ares_getaddrinfo (host_callback: when to end with which status, when to go "
+              "on to the next candidate) is regenerated from the C source on every run (tools/gen_hostcb.py) and C13c proves "
+              "over it: cancel/destroy give no partial result, a recorded allocation failure gives ARES_ENOMEM, success "
+              "needs an address, and the channel model's getaddrinfo client decides exactly through that generated chain "
+              "(gaiOnCb_follows_generated). End-to-end part at the model level (C13b/C12c): for the channel model's getaddrinfo client the addresses "
               "delivered are exactly those of the successful replies for the winning candidate (A and AAAA sub-queries merged in "
               "arrival order), none invented, duplicated or dropped, none on cancel, and every reply the client sees is an accepted "
               "one or a cached copy of one. Pure part (the end-to-end lookups - merge of the A and AAAA sub-queries, hosts file, lookup "
